@@ -13,9 +13,11 @@ Inductive item := Text (s : bytes) | Var (k : bytes) | Include (n : bytes) | Imp
 Record content := { items : list item; export : bytes }.
 
 (* ---------- file system: path -> content with its stat version ---------- *)
-(* the version stands for (ctime_ns, mtime_ns, ino, size) resp. the mtime; the history semantics
-   below gives every edit a version never used before (the assumption of the property) *)
-Record file := { f_content : content; f_ver : nat }.
+(* f_ver stands for the stat tuple (ctime_ns, mtime_ns, ino, size) that version_for_file_path hashes,
+   f_mtime for st_mtime alone (all that jinja2.FileSystemLoader looks at).  The history semantics
+   below gives every edit a stat version never used before (the kernel moves ctime on every write);
+   an edit may keep the mtime of the file it replaces (os.utime, cp -p, rsync -t) *)
+Record file := { f_content : content; f_ver : nat; f_mtime : nat }.
 Definition fsys := list (bytes * file).
 
 Fixpoint alookup {A} (l : list (bytes * A)) (k : bytes) : option A :=
@@ -68,7 +70,7 @@ Definition join_path (cfg : config) (template parent : bytes) : bytes :=
   if relative_includes cfg then normpath (join2 (join2 parent DOTDOT) template) else template.
 
 (* ---------- jinja2's template cache ---------- *)
-Record entry := { e_content : content; e_ver : nat }.     (* compiled template + what its callback captured *)
+Record entry := { e_content : content; e_ver : nat; e_mtime : nat }.   (* compiled template + what its callback captured *)
 Definition tcache := list (bytes * entry).                 (* keyed by template *name* *)
 
 Inductive res (A : Type) := Ok (a : A) | ENotFound | ETypeError | EFuel.
@@ -80,14 +82,21 @@ Definition load (cfg : config) (fs : fsys) (c : tcache) (name : bytes) : tcache 
   | Some p =>
       match alookup fs p with
       | None => (c, ENotFound)
-      | Some f => (aset c name {| e_content := f_content f; e_ver := f_ver f |}, Ok (f_content f))
+      | Some f => (aset c name {| e_content := f_content f; e_ver := f_ver f; e_mtime := f_mtime f |}, Ok (f_content f))
       end
   end.
+
+(* what the up-to-date callback of the configured loader compares: the stat version (_Loader) or
+   the mtime (jinja2.FileSystemLoader) *)
+Definition file_key (cfg : config) (f : file) : nat :=
+  match root_dir cfg with None => f_ver f | Some _ => f_mtime f end.
+Definition entry_key (cfg : config) (e : entry) : nat :=
+  match root_dir cfg with None => e_ver e | Some _ => e_mtime e end.
 
 Definition current_version (cfg : config) (fs : fsys) (name : bytes) : option nat :=
   match resolve cfg name with
   | None => None
-  | Some p => match alookup fs p with Some f => Some (f_ver f) | None => None end
+  | Some p => match alookup fs p with Some f => Some (file_key cfg f) | None => None end
   end.
 
 Definition opt_nat_eqb (a : option nat) (b : nat) : bool :=
@@ -100,7 +109,7 @@ Definition get_template (cfg : config) (fs : fsys) (c : tcache) (name : bytes) :
   | Some e =>
       if cache_enabled cfg then
         (* up_to_date_with_cache (stat version) / FileSystemLoader.uptodate (mtime); a missing file is stale *)
-        if opt_nat_eqb (current_version cfg fs name) (e_ver e) then (c, Ok (e_content e)) else load cfg fs c name
+        if opt_nat_eqb (current_version cfg fs name) (entry_key cfg e) then (c, Ok (e_content e)) else load cfg fs c name
       else
         match root_dir cfg with
         | Some _ => if arity_bug cfg then (c, ETypeError)      (* uptodate() with a one-argument lambda *)
@@ -182,14 +191,20 @@ Definition render (fuel : nat) (cfg : config) (fs : fsys) (c : tcache) (name : b
   end.
 
 (* ---------- histories ---------- *)
-Inductive step := Edit (path : bytes) (new : option content) | Render (name : bytes) (caller : ctx).
+(* keep_mtime: the edit leaves st_mtime as it was (irrelevant when the file is created or deleted) *)
+Inductive step := Edit (path : bytes) (new : option content) (keep_mtime : bool) | Render (name : bytes) (caller : ctx).
 Record est := { s_fs : fsys; s_cache : tcache; s_next : nat }.
 Definition est0 : est := {| s_fs := []; s_cache := []; s_next := 0 |}.
 
-Definition do_edit (st : est) (path : bytes) (new : option content) : est :=
+Definition do_edit (st : est) (path : bytes) (new : option content) (keep : bool) : est :=
   match new with
-  | Some ct => {| s_fs := aset (s_fs st) path {| f_content := ct; f_ver := s_next st |};
-                  s_cache := s_cache st; s_next := S (s_next st) |}
+  | Some ct =>
+      let mt := match alookup (s_fs st) path with
+                | Some old => if keep then f_mtime old else s_next st
+                | None => s_next st
+                end in
+      {| s_fs := aset (s_fs st) path {| f_content := ct; f_ver := s_next st; f_mtime := mt |};
+         s_cache := s_cache st; s_next := S (s_next st) |}
   | None => {| s_fs := aremove (s_fs st) path; s_cache := s_cache st; s_next := s_next st |}
   end.
 
@@ -197,7 +212,7 @@ Definition do_edit (st : est) (path : bytes) (new : option content) : est :=
 Fixpoint run (fuel : nat) (cfg : config) (st : est) (h : list step) : list (res bytes) :=
   match h with
   | [] => []
-  | Edit p new :: r => run fuel cfg (do_edit st p new) r
+  | Edit p new k :: r => run fuel cfg (do_edit st p new k) r
   | Render name caller :: r =>
       let '(c', out) := render fuel cfg (s_fs st) (s_cache st) name caller in
       out :: run fuel cfg {| s_fs := s_fs st; s_cache := c'; s_next := s_next st |} r
@@ -207,7 +222,7 @@ Fixpoint run (fuel : nat) (cfg : config) (st : est) (h : list step) : list (res 
 Fixpoint run_fresh (fuel : nat) (cfg : config) (st : est) (h : list step) : list (res bytes) :=
   match h with
   | [] => []
-  | Edit p new :: r => run_fresh fuel cfg (do_edit st p new) r
+  | Edit p new k :: r => run_fresh fuel cfg (do_edit st p new k) r
   | Render name caller :: r =>
       snd (render fuel cfg (s_fs st) [] name caller) :: run_fresh fuel cfg st r
   end.
@@ -262,7 +277,16 @@ Definition spec_render (fuel : nat) (cfg : config) (fs : fsys) (name : bytes) (c
 Fixpoint run_spec (fuel : nat) (cfg : config) (st : est) (h : list step) : list (res bytes) :=
   match h with
   | [] => []
-  | Edit p new :: r => run_spec fuel cfg (do_edit st p new) r
+  | Edit p new k :: r => run_spec fuel cfg (do_edit st p new k) r
   | Render name caller :: r => spec_render fuel cfg (s_fs st) name caller :: run_spec fuel cfg st r
   end.
 
+
+(* the configuration in which jinja2.FileSystemLoader's mtime-only test is in force *)
+Definition fsl_cached (cfg : config) : bool :=
+  match root_dir cfg with Some _ => cache_enabled cfg | None => false end.
+Definition keeps_mtime (s : step) : bool := match s with Edit _ (Some _) k => k | _ => false end.
+(* the assumption under which edits are visible: with the cached FileSystemLoader every edit changes
+   the mtime; with the engine's own loader (or caching off) nothing is assumed beyond a new stat version *)
+Definition history_ok (cfg : config) (h : list step) : bool :=
+  negb (fsl_cached cfg) || forallb (fun s => negb (keeps_mtime s)) h.
